@@ -115,6 +115,33 @@ func h2c(path string, rng *rand.Rand, n int) {
 		}
 		o.Emit(l)
 	}
+	// BLS12-381 G2 (the hash of BLS signatures in the G2 variant): 192 bytes x.c1 || x.c0 || y.c1 || y.c0; X holds x.c0 || x.c1, Y holds y.c0 || y.c1
+	g2ins := []in{{"rfc9380-empty", nil, []byte("QUUX-V01-CS02-with-BLS12381G2_XMD:SHA-256_SSWU_RO_")},
+		{"bls-sig-dst", []byte("message to be signed"), []byte("BLS_SIG_BLS12381G2_XMD:SHA-256_SSWU_RO_NUL_")}}
+	for i := 0; i < n/4; i++ {
+		g2ins = append(g2ins, in{"random", vlib.Bytes(rng, rng.Intn(200)), vlib.Bytes(rng, 1+rng.Intn(60))})
+	}
+	for _, x := range g2ins {
+		l := h2cLine{Curve: "BLS12381G2", Kind: "xmd-sha256", Class: x.class, Msg: toInts(x.msg), Dst: toInts(x.dst), N: 256, X: []int{}, Y: []int{}, Uniform: []int{}}
+		oc := vlib.Safe(60e9, func() {
+			l.Uniform = toInts(expander.NewExpanderMD(crypto.SHA256, x.dst).Expand(x.msg, 256))
+			var g bls12381.G2
+			g.Hash(x.msg, x.dst)
+			if g.IsIdentity() {
+				l.Identity = true
+				return
+			}
+			b := g.Bytes()
+			if len(b) != 192 || b[0]&0xe0 != 0 {
+				panic(fmt.Sprintf("unexpected encoding %x", b))
+			}
+			l.X, l.Y = toInts(append(append([]byte{}, b[48:96]...), b[:48]...)), toInts(append(append([]byte{}, b[144:192]...), b[96:144]...))
+		})
+		if oc.Bad() {
+			l.Panics, l.Note = 1, oc.Panic
+		}
+		o.Emit(l)
+	}
 	for _, c := range curves {
 		ins := []in{{"rfc9380-empty", nil, []byte(fmt.Sprintf("QUUX-V01-CS02-with-%s_XMD:%s_SSWU_RO_", c.name, map[string]string{"P256": "SHA-256", "P384": "SHA-384", "P521": "SHA-512"}[c.name]))},
 			{"oprf-dst", []byte("input"), append([]byte("HashToGroup-OPRFV1-\x00-"), []byte(c.su.Identifier())...)}}
